@@ -1,6 +1,7 @@
 import NgoVerif.Model.Cleanup
 import NgoVerif.Meta.M6
 import NgoVerif.Proofs.C08sem
+import NgoVerif.Proofs.StrongEq
 /-!
 # C08 — cleanup deletes only literals and rules that cannot matter
 
@@ -136,10 +137,18 @@ example :
 for every environment, here-and-there pair and choice of semantic parameters, the cleaned body has the same
 denotation as the original one (conditional literals and aggregate element conditions included), and a body is
 discarded — the statement deleted — only if it can never hold. -/
-theorem C08_remove_boolean_sound (P : Sem.Params) (G : List String) (e : Sem.Env) (H T : Sem.Interp) (b : List BLit) :
+theorem C08_remove_boolean_sound (P : Sem.Params) (G : String → Prop) (e : Sem.Env) (H T : Sem.Interp) (b : List BLit) :
     match removeBooleanBody b with
     | some b' => (Sem.bodySat P G e H T b' ↔ Sem.bodySat P G e H T b)
     | none => ¬ Sem.bodySat P G e H T b :=
   Proofs.C08sem.removeBooleanBody_sound P G e H T b
+
+
+/-- **Program level**: the boolean step of `cleanup` (`remove_boolean` on every statement, statements whose body
+contains `#false` dropped) is a strong equivalence for every head semantics: "a statement is deleted only if its body
+can never hold" and nothing else changes meaning. -/
+theorem C08_remove_boolean_strongeq (P : Sem.PParams) (prg : Prog) :
+    Sem.StrongEq P prg (prg.filterMap removeBoolean) :=
+  Proofs.StrongEq.removeBoolean_strongEq P prg
 
 end NgoVerif
